@@ -1,6 +1,6 @@
 """C05 - listing tables hold exactly the numbers printed in the listing file."""
 from checks import generic
-from contracts import c05
+from contracts import c05, c05b
 
 
 def main(tier):
@@ -8,9 +8,11 @@ def main(tier):
         'all 37 shipped listings, every table and row at the first / middle / last (quick) or every (thorough) result time, compared cell by cell with an independent tokenizer of the printed '
         'text (exact decimal comparison); the three addressing modes; every subset of skipped tables; value-perturbed variants (same-width digits, negative, zero, 3-digit exponent, letter-less exponent); '
         'distinct = distinct (file, table, time / skip subset / variant) cases',
-        trust=('pyvc record model of listingtable (2-D array as a matrix of symbolic reals)', 'fortran_float opaque in read_table_line (its contract is C16)', 'z3'),
-        assume=('column detection (setup_table_*, parse_table_line, start_of_values) and table reading over seek/tell file state are outside the executor subset: bounded on the shipped corpus and its perturbations',),
+        trust=('pyvc record model of listingtable (2-D array as a matrix of symbolic reals)', 'fortran_float opaque in read_table_line (its contract is C16)', 'pyvc/rx.py: the model of re (finditer of a literal in parse_table_line), cross-checked against CPython re by run.py crosscheck', 'z3'),
+        extra=[(c05b, c05b.programs(tier))],
+        assume=('layout obligations: rows of the printed layouts (1X, A5, I6, 3E12.5) and (3X, A5, 2X, A5, I6, 3E13.6) - the TOUGH2 element and connection tables - with every digit, value sign and exponent sign symbolic, on both the format-detection row and the data row; the printed form of each field (2-digit exponent, 3-digit exponent without the letter, 3-digit exponent with the letter) is the concrete structure: 8 combinations (quick) or all 27 forms of the format-detection row for both tables (thorough) + 2 that reproduce the recorded findings; a 3-digit exponent on the format-detection row is followed by a blank sign column',
+                'the file-cursor drivers (setup_table_*, read_table_* over seek / tell state, header parsing, the choice of the longest row) and the other simulators\' layouts are outside the executor subset: bounded on the shipped corpus and its perturbations'),
         explanation='clause -> evidence: row-name / row-index / column-name addressing agree, reversed connection names give the negated row iff allowed, __setitem__ touches one row, each cell is '
-                    'fortran_float of exactly its own columns with blank trailing cells 0, keys are the printed names with the blank quirk repaired: PROVED on the real listingtable / read_table_line code. '
+                    'fortran_float of exactly its own columns with blank trailing cells 0, keys are the printed names with the blank quirk repaired: PROVED on the real listingtable / read_table_line code. The layout inference chained as setup_table_TOUGH2 / read_table_TOUGH2 chain it (real start_of_values -> key_positions -> parse_table_line on a format-detection row, real key_from_line and read_table_line_TOUGH2 on a data row): every cell is read from characters that contain its whole printed field and nothing of another field, the row key is the printed name, nothing raises: PROVED for all digits, signs and exponent signs of both rows of the listed layouts. '
                     'Every cell of every table of every shipped file and perturbed variant equals the printed number, skip subsets do not change other tables: BOUNDED (exhaustive over the corpus in the thorough tier).',
         bounded_timeout=(1200, 3400))
